@@ -955,6 +955,8 @@ class Inliner:
             if s.get("else") is not None:
                 n["else"] = self._wrap(s.get("else"), self.tx_stmt(s["else"], stack, fn))
             r = self._if_site(n, stack, fn)
+            if r is None:
+                r = self._if_effect_in_condition(n, stack, fn)
             return r if r is not None else [n]
         if k in ("While", "Do", "For", "RangeFor"):
             n = dict(s)
@@ -1217,6 +1219,50 @@ class Inliner:
             # calls through a function parameter became direct calls: they can be expanded in turn
             res = self.tx_block(res, stack + ("<function-arg>",), fn)
         return res
+
+    def _if_effect_in_condition(self, n, stack, fn):
+        """`if (A && helper().flag) S` (no else, A pure): the helper runs only when A holds - `if (A) { T r = helper(); if (r.flag) S }`;
+        `if (helper().flag) S`: `T r = helper(); if (r.flag) S`.  Only for helpers that would be expanded at a declaration."""
+        if n.get("condvar") is not None or n.get("else") is not None and False:
+            return None
+        c = unwrap(n.get("cond"))
+        def result_member(e):
+            u_ = unwrap(e)
+            if isinstance(u_, dict) and u_.get("k") == "Un" and u_.get("op") == "!":
+                u_ = unwrap(u_.get("e"))
+            if not (isinstance(u_, dict) and u_.get("k") == "Member" and u_.get("field")):
+                return False
+            call_ = ir.unwrap_all_casts(u_.get("base"))
+            while isinstance(call_, dict) and call_.get("k") == "Construct" and call_.get("copymove") and len(call_.get("args", [])) == 1:
+                call_ = ir.unwrap_all_casts(call_["args"][0])
+            return isinstance(call_, dict) and call_.get("k") in ("MCall", "Call") and isinstance(call_.get("callee"), dict) and \
+                helper_type(self.facts, (call_.get("t") or "").replace("const ", "")) and self.target_function(call_, stack[-1] if stack else None) is not None
+        if isinstance(c, dict) and c.get("k") == "Bin" and c.get("op") == "&&" and n.get("else") is None and is_pure(c.get("lhs"), self.facts) and \
+                result_member(c.get("rhs")):
+            inner = {"k": "If", "l": n.get("l"), "cond": c["rhs"], "then": n.get("then")}
+            outer = {"k": "If", "l": n.get("l"), "cond": c["lhs"], "then": {"k": "Block", "l": n.get("l"), "s": [inner]}}
+            return self.tx_stmt(outer, stack, fn)
+        # a member of a helper's by-value result
+        neg = False
+        u = c
+        if isinstance(u, dict) and u.get("k") == "Un" and u.get("op") == "!":
+            u, neg = unwrap(u.get("e")), True
+        if isinstance(u, dict) and u.get("k") == "Member" and u.get("field"):
+            call = ir.unwrap_all_casts(u.get("base"))
+            while isinstance(call, dict) and call.get("k") == "Construct" and call.get("copymove") and len(call.get("args", [])) == 1:
+                call = ir.unwrap_all_casts(call["args"][0])
+            if isinstance(call, dict) and call.get("k") in ("MCall", "Call") and isinstance(call.get("callee"), dict) and \
+                    helper_type(self.facts, (call.get("t") or "").replace("const ", "")) and self.target_function(call, stack[-1] if stack else None) is not None:
+                vid = self.fresh()
+                t = (call.get("t") or "").replace("const ", "")
+                decl = {"k": "Decl", "l": n.get("l"), "vars": [{"n": "result", "id": vid, "t": t, "tw": t, "l": n.get("l"), "init": call}]}
+                ref = {"k": "Ref", "d": "local", "id": vid, "n": "result", "t": t, "l": n.get("l")}
+                m = dict(u)
+                m["base"] = ref
+                n2 = dict(n)
+                n2["cond"] = {"k": "Un", "op": "!", "e": m, "t": "bool", "l": n.get("l")} if neg else m
+                return self.tx_block([decl, n2], stack, fn)
+        return None
 
     def _if_site(self, n, stack, fn):
         """`if (helper(..)) S [else S2]` where the helper has several returns: the helper runs first, and each of its returns
@@ -2978,6 +3024,16 @@ def scalar_replace_aggregates(body, facts):
                 while isinstance(rr, dict) and rr.get("k") == "Construct" and rr.get("copymove") and len(rr.get("args", [])) == 1:
                     rr = ir.unwrap_all_casts(rr["args"][0])
                 if isinstance(l, dict) and l.get("k") == "Ref" and l.get("d") == "local" and l.get("id") in by_id and \
+                        isinstance(rr, dict) and rr.get("k") == "Ref" and rr.get("d") == "local" and rr.get("id") in by_id and \
+                        by_id[rr["id"]] is by_id[l["id"]] and rr.get("id") != l.get("id"):
+                    # `x = y;` between two such locals of one type is the member-wise copy
+                    for f_ in by_id[l["id"]]["fields"]:
+                        out.append({"k": "Bin", "op": "=", "l": u.get("l"), "t": f_["t"],
+                                    "lhs": {"k": "Member", "field": True, "n": f_["n"], "t": f_["t"], "l": u.get("l"), "base": copy.deepcopy(l)},
+                                    "rhs": {"k": "Member", "field": True, "n": f_["n"], "t": f_["t"], "l": u.get("l"), "base": copy.deepcopy(rr)}})
+                    changed = True
+                    continue
+                if isinstance(l, dict) and l.get("k") == "Ref" and l.get("d") == "local" and l.get("id") in by_id and \
                         isinstance(rr, dict) and rr.get("k") == "InitList" and len(rr.get("c", [])) == len(by_id[l["id"]]["fields"]):
                     for f_, e_ in zip(by_id[l["id"]]["fields"], rr["c"]):
                         out.append({"k": "Bin", "op": "=", "l": u.get("l"), "t": f_["t"],
@@ -3231,7 +3287,17 @@ def fold_local_flags(body, facts):
                     for x_ in extra:
                         stmt_nodes.discard(x_)
                     count[0] = saved
-                    if e1 is not None and e2 is not None and any(v_ in e1 and v_ in e2 and e1[v_] != e2[v_] for v_ in tested):
+                    def stores_top(br, v_):
+                        for x_ in ir.stmts(br):
+                            u_ = unwrap(x_) if isinstance(x_, dict) else None
+                            if isinstance(u_, dict) and u_.get("k") == "Bin" and u_.get("op") == "=":
+                                l_ = unwrap(u_.get("lhs"))
+                                if isinstance(l_, dict) and l_.get("k") == "Ref" and l_.get("d") == "local" and l_.get("id") == v_:
+                                    return True
+                        return False
+                    if e1 is not None and e2 is not None and any(
+                            (v_ in e1 and v_ in e2 and e1[v_] != e2[v_]) or
+                            ((v_ in e1) != (v_ in e2) and stores_top(st["then"], v_) and stores_top(st["else"], v_)) for v_ in tested):
                         t2 = copy.deepcopy(tail)
                         _register_stores({"k": "Block", "s": t2}, cands, stmt_nodes)
                         st["then"] = {"k": "Block", "l": st["then"].get("l"), "s": ir.stmts(st["then"]) + t2}
